@@ -93,7 +93,7 @@ class C08(Prop):
             evs = tg.events(rng, rng.randint(4, 16), hot=False, mode=mode, unsub_p=0.04)
             out.append(Case("time", rng.choice(["local", "threads"]), [("pipe", [pipe])], evs,
                             {"kind": mode, "src": src[0]}))
-        return out
+        return tg.with_units(seed, out)
 
     def async_cases(self, rng, tier):
         out = []
